@@ -100,6 +100,36 @@ class Check:
             raise MachineryError(f"TLC did not finish {module}/{spec} (rc={r.rc}):\n" + r.out[-3000:])
         return r
 
+    # -- stage: inductive invariant with Apalache (thorough tier) -----------------
+    def apalache_inductive(self, module="DispatcherInd.tla", cinit="ConstInit", init="Init", ind="IndInv",
+                           timeout=3000):
+        """Init => IndInv and IndInv /\\ Next => IndInv' (symbolic durations and machine sets)."""
+        import subprocess
+        import shutil
+        wd = common.workdir(f"apa-{self.pid}")
+        results = []
+        for (label, args) in (("base", [f"--init={init}", "--length=0"]),
+                              ("step", ["--init=IndInit", "--length=1"])):
+            cmd = ["apalache-mc", "check", f"--cinit={cinit}", f"--inv={ind}", f"--out-dir={wd}"] + args + [module]
+            t0 = time.time()
+            try:
+                p = subprocess.run(cmd, cwd=str(SPEC / "apalache"), stdout=subprocess.PIPE, stderr=subprocess.STDOUT,
+                                   text=True, timeout=timeout)
+                out = p.stdout
+            except subprocess.TimeoutExpired:
+                out = "TIMEOUT"
+            ok = "The outcome is: NoError" in out
+            results.append({"obligation": f"{module}:{label}", "discharged": ok, "wall_s": round(time.time() - t0, 1)})
+            if not ok and "The outcome is: Error" in out:
+                self.violations.append(Violation(self.pid, f"{self.pid}:spec:apalache-{label}", "",
+                                                 where=f"apalache {module}", trace={"output_tail": out[-3000:]},
+                                                 source="apalache"))
+            elif not ok:
+                raise MachineryError(f"apalache {label} did not finish:\n" + out[-2000:])
+        shutil.rmtree(wd, ignore_errors=True)
+        self.notes["apalache_inductive_invariant"] = results
+        return results
+
     # -- stage: monitoring recorded traces ----------------------------------
     def monitor(self, traces, *, module="Trace_D.tla", cfg="Trace_D.cfg", name=None,
                 source="", behaviours=None, case_key=None, workers=16, timeout=1500):
